@@ -5,7 +5,13 @@ For every concrete solver class, along its real MRO:
                   and on s.blank_copy();
   ownership     : no mutable container object is reachable from both s and s.branch(), except the
                   declared shared cells (the Z3 solver object under _tls, composite children, ASTs);
-  pickle-coverage: every attribute of s exists on pickle.loads(pickle.dumps(s)).
+  pickle-coverage: every attribute of s exists on pickle.loads(pickle.dumps(s));
+  copy-fidelity / pickle-fidelity: every attribute that holds a plain value (scalars, containers of scalars and ASTs) has
+                  the SAME value on s.branch() / on the unpickled solver, after three histories (queried; unflushed adds;
+                  replacements with a memoised compound expression and a concretely false add) and with every Boolean
+                  constructor option flipped - except the attributes listed, with the reason, in DIFFERS_OK /
+                  PICKLE_DIFFERS_OK.  This is the frame condition "the copy is a copy of the whole state": it is what
+                  notices a _copy that leaves a list empty or a __getstate__/__setstate__ pair whose fields are crossed.
 The copy/pickle methods are shown (syntactically, on the current source) to assign a fixed set of
 attribute names - no attribute is created conditionally or outside __init__/_blank_copy/_copy/
 __setstate__ - so one execution per class decides the obligation for every history."""
@@ -28,12 +34,12 @@ TRANSIENT = {"_tls"}          # re-created by __setstate__, never pickled
 SHARED_OK = ("._template_frontend",)
 
 
-def _mk(name):
+def _mk(name, **kw):
     import claripy
     cls = getattr(claripy, name, None) or getattr(claripy.solvers, name)
     if name == "SolverCompositeChild":
-        return cls(backend=claripy.backends.z3)
-    return cls()
+        return cls(backend=claripy.backends.z3, **kw)
+    return cls(**kw)
 
 
 def _history(s):
@@ -48,6 +54,117 @@ def _history(s):
         s.max(y)
     except Exception:
         pass
+
+
+def _history2(s):
+    """a history that leaves work pending: a query (backend solver exists), then adds that no query has flushed yet"""
+    import claripy
+    x = claripy.BVS("sc_x", 8, explicit_name=True)
+    y = claripy.BVS("sc_y", 8, explicit_name=True)
+    try:
+        s.add(x > 3)
+        s.satisfiable()
+        s.add(y == x + 1)
+        s.add(claripy.ULT(y, 200))
+    except Exception:
+        pass
+
+
+def _history3(s):
+    """replacements with a memoised compound expression (the replacement table and its cache differ), a concretely false add"""
+    import claripy
+    x = claripy.BVS("sc_x", 8, explicit_name=True)
+    y = claripy.BVS("sc_y", 8, explicit_name=True)
+    try:
+        s.add(x > 3)
+        if hasattr(s, "add_replacement"):
+            s.add_replacement(y, claripy.BVV(5, 8))
+            s.eval(y + 1, 1)
+        s.add(claripy.false())
+    except Exception:
+        pass
+
+
+def _variants(name):
+    """constructor configurations: the default one and every Boolean option flipped (so that two flags never hold the same value)"""
+    import claripy
+    import inspect as _i
+    cls = getattr(claripy, name, None) or getattr(claripy.solvers, name)
+    out = [{}]
+    opts = {}
+    for k in cls.__mro__:
+        init = k.__dict__.get("__init__")
+        if init is None:
+            continue
+        try:
+            for pn, pv in _i.signature(init).parameters.items():
+                if isinstance(pv.default, bool):
+                    opts.setdefault(pn, pv.default)
+        except (TypeError, ValueError):
+            pass
+    for pn, dv in sorted(opts.items()):
+        out.append({pn: not dv})
+    return out
+
+
+PLAIN = (list, dict, set, frozenset, tuple, bool, int, str, type(None))
+# attributes whose value legitimately differs between a solver and its branch / unpickled copy (everything else that holds
+# a plain value must be equal by value right after the copy: the copy is a copy of the state, not of part of it)
+DIFFERS_OK = {
+    "_finalized": "not part of the semantic state",
+    "_uuid": "identity of the solver object",
+}
+
+
+PICKLE_DIFFERS_OK = {
+    "_to_add": "an unpickled solver has no backend solver object; every constraint is (re)added when one is created",
+    "constraints_wo_annotations": "derived state: recomputed from the constraint list by __setstate__",
+    "_replacement_cache": "memo: re-initialised from _replacements by __setstate__ (must then EQUAL _replacements: checked separately)",
+}
+
+
+def _plain(v, depth=0):
+    if isinstance(v, (bool, int, str, type(None))):
+        return True
+    if depth > 3:
+        return False
+    if isinstance(v, (list, tuple, set, frozenset)):
+        return all(_plain(x, depth + 1) or _is_ast(x) for x in v)
+    if isinstance(v, dict):
+        return all((_plain(k, depth + 1) or _is_ast(k)) and (_plain(x, depth + 1) or _is_ast(x)) for k, x in v.items())
+    return False
+
+
+def _is_ast(x):
+    import claripy
+    return isinstance(x, claripy.ast.Base)
+
+
+def _norm(v):
+    """value with ASTs replaced by their identity (hash-consed: same expression = same object)"""
+    if _is_ast(v):
+        return ("ast", id(v))
+    if isinstance(v, (list, tuple)):
+        return (type(v).__name__, tuple(_norm(x) for x in v))
+    if isinstance(v, (set, frozenset)):
+        return ("set", frozenset(_norm(x) for x in v))
+    if isinstance(v, dict):
+        return ("dict", frozenset((_norm(k), _norm(x)) for k, x in v.items()))
+    return v
+
+
+def _fidelity(a, b, skip=()):
+    """attributes of a that hold plain values (scalars, containers of scalars/ASTs) and differ by value on b"""
+    out = []
+    n = 0
+    for k, v in vars(a).items():
+        if k in DIFFERS_OK or k in skip or k not in vars(b) or not _plain(v):
+            continue
+        n += 1
+        w = vars(b)[k]
+        if not _plain(w) or _norm(v) != _norm(w):
+            out.append((k, repr(v)[:120], repr(w)[:120]))
+    return out, n
 
 
 def _containers(obj, seen=None, depth=0, path="s"):
@@ -139,6 +256,33 @@ def ob_statecov(cls):
         if any(k in ps for k in SHARED_OK):
             continue
         probs.append(("ownership", f"mutable container {ps} is shared with the branch ({pb})", {"class": cls, "cell": ps}))
+    # copy fidelity: the branch holds the same plain-valued state, under two histories (one with unflushed adds)
+    runs = [(hn, h, {}) for hn, h in (("queried", _history), ("pending-adds", _history2), ("replacement+false", _history3))]
+    runs += [(f"queried,{kw}", _history, kw) for kw in _variants(cls)[1:]]
+    for hname, hist, kw in runs:
+        try:
+            s2 = _mk(cls, **kw)
+        except Exception:  # this class does not accept the option
+            continue
+        hist(s2)
+        pre = {k: _norm(v) for k, v in vars(s2).items() if _plain(v)}
+        b2 = s2.branch()
+        diffs, k = _fidelity(s2, b2)
+        n += k
+        for attr, va, vb in diffs:
+            probs.append(("copy-fidelity", f"after the history '{hname}', {cls}.branch() has {attr} = {vb} while the solver has {va}",
+                          {"class": cls, "attr": attr, "history": hname}))
+        try:
+            u2 = pickle.loads(pickle.dumps(s2))
+            diffs, k = _fidelity(s2, u2, skip=PICKLE_DIFFERS_OK)
+            if "_replacement_cache" in vars(u2) and _norm(vars(u2)["_replacement_cache"]) != _norm(vars(u2).get("_replacements")):
+                diffs.append(("_replacement_cache", "a copy of _replacements", repr(vars(u2)["_replacement_cache"])[:120]))
+            n += k
+            for attr, va, vb in diffs:
+                probs.append(("pickle-fidelity", f"after the history '{hname}', the unpickled {cls} has {attr} = {vb} while the solver has {va}",
+                              {"class": cls, "attr": attr, "history": hname}))
+        except Exception:  # reported by pickle-raises below
+            pass
     # pickle coverage
     try:
         u = pickle.loads(pickle.dumps(s))
